@@ -1,0 +1,84 @@
+//! Read-only observation hooks for out-of-tree runtime monitors (cargo feature `verif`, off by default).
+//!
+//! Nothing here influences the replica: an [`Observer`] registered on [`Config`] is handed a
+//! [`Snapshot`] of the replica state after the replica has started, after every processed message
+//! and after every timer expiry.
+use std::{fmt, sync::Arc};
+
+use zksync_consensus_roles::validator;
+
+use crate::{v2_chonky_bft::StateMachine, Config};
+
+/// What the replica just did.
+#[derive(Debug)]
+pub enum Step<'a> {
+    /// The replica loaded its persisted state (and, in view 0, timed out immediately).
+    Started,
+    /// A message taken from the inbound queue has been processed.
+    Message {
+        /// The message.
+        msg: &'a validator::Signed<validator::ConsensusMsg>,
+        /// Whether the handler accepted it.
+        accepted: bool,
+    },
+    /// The view timer expired and the replica (re)sent its timeout vote.
+    TimerExpired,
+}
+
+/// Copy of the replica state taken after a step.
+#[derive(Debug, Clone, PartialEq, Eq)]
+#[allow(missing_docs)]
+pub struct Snapshot {
+    pub view: validator::ViewNumber,
+    pub phase: validator::v2::Phase,
+    pub high_vote: Option<validator::v2::ReplicaCommit>,
+    pub high_commit_qc: Option<validator::v2::CommitQC>,
+    pub high_timeout_qc: Option<validator::v2::TimeoutQC>,
+    /// (number, payload hash) of every cached proposal.
+    pub proposal_cache: Vec<(validator::BlockNumber, validator::PayloadHash)>,
+    pub commit_views_cache_len: usize,
+    pub commit_qcs_cache_views: usize,
+    pub commit_qcs_cache_entries: usize,
+    pub timeout_views_cache_len: usize,
+    pub timeout_qcs_cache_len: usize,
+}
+
+/// Receives a snapshot after every step of a replica.
+pub trait Observer: fmt::Debug + Send + Sync {
+    /// Called synchronously from the replica task.
+    fn on_step(&self, step: Step<'_>, snapshot: &Snapshot);
+}
+
+impl Config {
+    /// Registers an observer (runtime monitoring only).
+    pub fn with_verif_observer(mut self, observer: Arc<dyn Observer>) -> Self {
+        self.verif_observer = Some(observer);
+        self
+    }
+}
+
+impl StateMachine {
+    pub(crate) fn verif_observe(&self, step: Step<'_>) {
+        let Some(observer) = self.config.verif_observer.as_ref() else {
+            return;
+        };
+        let snapshot = Snapshot {
+            view: self.view_number,
+            phase: self.phase,
+            high_vote: self.high_vote.clone(),
+            high_commit_qc: self.high_commit_qc.clone(),
+            high_timeout_qc: self.high_timeout_qc.clone(),
+            proposal_cache: self
+                .block_proposal_cache
+                .iter()
+                .flat_map(|(n, m)| m.keys().map(|h| (*n, *h)))
+                .collect(),
+            commit_views_cache_len: self.commit_views_cache.len(),
+            commit_qcs_cache_views: self.commit_qcs_cache.len(),
+            commit_qcs_cache_entries: self.commit_qcs_cache.values().map(|m| m.len()).sum(),
+            timeout_views_cache_len: self.timeout_views_cache.len(),
+            timeout_qcs_cache_len: self.timeout_qcs_cache.len(),
+        };
+        observer.on_step(step, &snapshot);
+    }
+}
